@@ -202,14 +202,16 @@ ClientShapes == {"none", "ownAuthz", "pauthOnce", "pauthTwice", "pauthMixedCase"
 \* dials its IDNA form): no entry for origin.test applies
 \* prior: what the same proxy instance has been asked just before - a request for the same host under the other scheme (the
 \* URL names no port: http means 80, https 443). Which entry applies is a matter of this request alone.
-CredReqs == [kind : {"GET", "CONNECT", "MITMGET"}, host : {"origin", "other", "originUpper", "originDotlessI"}, port : {"implicit", "8080"}, shape : ClientShapes,
+\* port zeros80 / empty80: ":080" and ":" - other spellings of port 80 of an http URL; host originRooted: "origin.test." - the same host
+CredReqs == [kind : {"GET", "CONNECT", "MITMGET"}, host : {"origin", "other", "originUpper", "originDotlessI", "originRooted"}, port : {"implicit", "8080", "zeros80", "empty80"}, shape : ClientShapes,
              prior : {"none", "otherScheme"}]
-CredReqOK(r) == /\ (r.kind = "CONNECT" => r.port = "8080") /\ (r.kind = "MITMGET" => r.port = "implicit") /\ (r.host \in {"originUpper", "originDotlessI"} => r.kind = "GET")
+CredReqOK(r) == /\ (r.kind = "CONNECT" => r.port = "8080") /\ (r.kind = "MITMGET" => r.port = "implicit") /\ (r.host \in {"originUpper", "originDotlessI", "originRooted"} => r.kind = "GET")
+                /\ (r.port \in {"zeros80", "empty80"} => r.kind = "GET" /\ r.host = "origin" /\ r.shape = "none")
                 /\ (r.prior # "none" => r.kind \in {"GET", "MITMGET"} /\ r.port = "implicit" /\ r.host = "origin" /\ r.shape = "none")
 HasOwnAuthz(sh) == sh \in {"ownAuthz", "pauthAndAuthz"}
 CredExpect(c, r) ==
-  LET p80 == r.kind = "GET" /\ r.port = "implicit"        \* http default port; CONNECT uses 8080, MITM 443
-      site == Match(c.table \ {"proxy"}, r.host \in {"origin", "originUpper"}, p80)
+  LET p80 == r.kind = "GET" /\ r.port \in {"implicit", "zeros80", "empty80"}        \* http default port; CONNECT uses 8080, MITM 443
+      site == Match(c.table \ {"proxy"}, r.host \in {"origin", "originUpper", "originRooted"}, p80)
   IN [ \* what the request that reaches the target (or the inner request of a tunnel) may carry as Authorization
        siteAuth  |-> IF HasOwnAuthz(r.shape) THEN "client" ELSE site,
        \* what the upstream proxy may be shown as Proxy-Authorization
@@ -233,7 +235,7 @@ InitRoute  == gen = "route"  /\ \E x \in Pick(RouteSample, RouteAll) \cup (IF Ro
                   cfg = x[1] /\ req = x[2] /\ out = Decide(x[1], x[2])
 InitVia    == gen = "via"    /\ cfg \in ViaCfgs /\ req \in ViaReqs /\ out = Decide(cfg, req)
 \* (every case with a history is always run)
-CredBase == {x \in CredAll : x[2].prior # "none"}
+CredBase == {x \in CredAll : x[2].prior # "none" \/ x[2].port \in {"zeros80", "empty80"} \/ (x[2].host = "originRooted" /\ x[2].shape = "none")}
 InitCred   == gen = "cred"   /\ \E x \in Pick(CredSample, CredAll) \cup (IF CredSample = 0 THEN {} ELSE CredBase) : cfg = x[1] /\ req = x[2] /\ out = CredExpect(x[1], x[2])
 Init == InitAccess \/ InitRoute \/ InitVia \/ InitCred
 Next == FALSE /\ UNCHANGED vars
